@@ -40,9 +40,21 @@ Model/Otp.vos Model/Otp.vok Model/Otp.required_vos: Model/Otp.v Base/Prelude.vos
 Model/Ocra.vo Model/Ocra.glob Model/Ocra.v.beautified Model/Ocra.required_vo: Model/Ocra.v Base/Prelude.vo Hash/Sha.vo Generated/Tables.vo Model/Errors.vo Model/Decoder.vo Model/Derive.vo Model/Otp.vo
 Model/Ocra.vio: Model/Ocra.v Base/Prelude.vio Hash/Sha.vio Generated/Tables.vio Model/Errors.vio Model/Decoder.vio Model/Derive.vio Model/Otp.vio
 Model/Ocra.vos Model/Ocra.vok Model/Ocra.required_vos: Model/Ocra.v Base/Prelude.vos Hash/Sha.vos Generated/Tables.vos Model/Errors.vos Model/Decoder.vos Model/Derive.vos Model/Otp.vos
-Model/Runner.vo Model/Runner.glob Model/Runner.v.beautified Model/Runner.required_vo: Model/Runner.v Base/Prelude.vo Hash/Sha.vo Generated/Tables.vo Model/Errors.vo Model/Decoder.vo Model/Derive.vo Model/Otp.vo Model/Ocra.vo Spec/Rfc4226.vo Spec/Rfc6287.vo Spec/Rfc4648.vo Model/Utils.vo Model/Random.vo
-Model/Runner.vio: Model/Runner.v Base/Prelude.vio Hash/Sha.vio Generated/Tables.vio Model/Errors.vio Model/Decoder.vio Model/Derive.vio Model/Otp.vio Model/Ocra.vio Spec/Rfc4226.vio Spec/Rfc6287.vio Spec/Rfc4648.vio Model/Utils.vio Model/Random.vio
-Model/Runner.vos Model/Runner.vok Model/Runner.required_vos: Model/Runner.v Base/Prelude.vos Hash/Sha.vos Generated/Tables.vos Model/Errors.vos Model/Decoder.vos Model/Derive.vos Model/Otp.vos Model/Ocra.vos Spec/Rfc4226.vos Spec/Rfc6287.vos Spec/Rfc4648.vos Model/Utils.vos Model/Random.vos
+Model/Utils.vo Model/Utils.glob Model/Utils.v.beautified Model/Utils.required_vo: Model/Utils.v Base/Prelude.vo Model/Errors.vo Model/Ocra.vo Model/Derive.vo
+Model/Utils.vio: Model/Utils.v Base/Prelude.vio Model/Errors.vio Model/Ocra.vio Model/Derive.vio
+Model/Utils.vos Model/Utils.vok Model/Utils.required_vos: Model/Utils.v Base/Prelude.vos Model/Errors.vos Model/Ocra.vos Model/Derive.vos
+Model/Random.vo Model/Random.glob Model/Random.v.beautified Model/Random.required_vo: Model/Random.v Base/Prelude.vo Spec/Rfc4648.vo
+Model/Random.vio: Model/Random.v Base/Prelude.vio Spec/Rfc4648.vio
+Model/Random.vos Model/Random.vok Model/Random.required_vos: Model/Random.v Base/Prelude.vos Spec/Rfc4648.vos
+Spec/SuiteName.vo Spec/SuiteName.glob Spec/SuiteName.v.beautified Spec/SuiteName.required_vo: Spec/SuiteName.v Base/Prelude.vo Hash/Sha.vo Model/Errors.vo Spec/Rfc4226.vo
+Spec/SuiteName.vio: Spec/SuiteName.v Base/Prelude.vio Hash/Sha.vio Model/Errors.vio Spec/Rfc4226.vio
+Spec/SuiteName.vos Spec/SuiteName.vok Spec/SuiteName.required_vos: Spec/SuiteName.v Base/Prelude.vos Hash/Sha.vos Model/Errors.vos Spec/Rfc4226.vos
+Model/Suite.vo Model/Suite.glob Model/Suite.v.beautified Model/Suite.required_vo: Model/Suite.v Base/Prelude.vo Generated/Tables.vo Generated/Registry.vo Model/Errors.vo Model/Decoder.vo Model/Derive.vo Model/Otp.vo Model/Ocra.vo Model/Utils.vo
+Model/Suite.vio: Model/Suite.v Base/Prelude.vio Generated/Tables.vio Generated/Registry.vio Model/Errors.vio Model/Decoder.vio Model/Derive.vio Model/Otp.vio Model/Ocra.vio Model/Utils.vio
+Model/Suite.vos Model/Suite.vok Model/Suite.required_vos: Model/Suite.v Base/Prelude.vos Generated/Tables.vos Generated/Registry.vos Model/Errors.vos Model/Decoder.vos Model/Derive.vos Model/Otp.vos Model/Ocra.vos Model/Utils.vos
+Model/Runner.vo Model/Runner.glob Model/Runner.v.beautified Model/Runner.required_vo: Model/Runner.v Base/Prelude.vo Hash/Sha.vo Generated/Tables.vo Model/Errors.vo Model/Decoder.vo Model/Derive.vo Model/Otp.vo Model/Ocra.vo Spec/Rfc4226.vo Spec/Rfc6287.vo Spec/Rfc4648.vo Model/Utils.vo Model/Random.vo Model/Suite.vo Spec/SuiteName.vo
+Model/Runner.vio: Model/Runner.v Base/Prelude.vio Hash/Sha.vio Generated/Tables.vio Model/Errors.vio Model/Decoder.vio Model/Derive.vio Model/Otp.vio Model/Ocra.vio Spec/Rfc4226.vio Spec/Rfc6287.vio Spec/Rfc4648.vio Model/Utils.vio Model/Random.vio Model/Suite.vio Spec/SuiteName.vio
+Model/Runner.vos Model/Runner.vok Model/Runner.required_vos: Model/Runner.v Base/Prelude.vos Hash/Sha.vos Generated/Tables.vos Model/Errors.vos Model/Decoder.vos Model/Derive.vos Model/Otp.vos Model/Ocra.vos Spec/Rfc4226.vos Spec/Rfc6287.vos Spec/Rfc4648.vos Model/Utils.vos Model/Random.vos Model/Suite.vos Spec/SuiteName.vos
 Extract/Extract.vo Extract/Extract.glob Extract/Extract.v.beautified Extract/Extract.required_vo: Extract/Extract.v Model/Runner.vo
 Extract/Extract.vio: Extract/Extract.v Model/Runner.vio
 Extract/Extract.vos Extract/Extract.vok Extract/Extract.required_vos: Extract/Extract.v Model/Runner.vos
@@ -91,21 +103,21 @@ Proofs/Base32Proofs.vos Proofs/Base32Proofs.vok Proofs/Base32Proofs.required_vos
 Properties/C07.vo Properties/C07.glob Properties/C07.v.beautified Properties/C07.required_vo: Properties/C07.v Base/Prelude.vo Hash/Sha.vo Spec/Rfc4648.vo Model/Decoder.vo Model/Derive.vo Model/Otp.vo Model/Ocra.vo Model/Errors.vo Proofs/Base32Proofs.vo
 Properties/C07.vio: Properties/C07.v Base/Prelude.vio Hash/Sha.vio Spec/Rfc4648.vio Model/Decoder.vio Model/Derive.vio Model/Otp.vio Model/Ocra.vio Model/Errors.vio Proofs/Base32Proofs.vio
 Properties/C07.vos Properties/C07.vok Properties/C07.required_vos: Properties/C07.v Base/Prelude.vos Hash/Sha.vos Spec/Rfc4648.vos Model/Decoder.vos Model/Derive.vos Model/Otp.vos Model/Ocra.vos Model/Errors.vos Proofs/Base32Proofs.vos
-Model/Utils.vo Model/Utils.glob Model/Utils.v.beautified Model/Utils.required_vo: Model/Utils.v Base/Prelude.vo Model/Errors.vo Model/Ocra.vo Model/Derive.vo
-Model/Utils.vio: Model/Utils.v Base/Prelude.vio Model/Errors.vio Model/Ocra.vio Model/Derive.vio
-Model/Utils.vos Model/Utils.vok Model/Utils.required_vos: Model/Utils.v Base/Prelude.vos Model/Errors.vos Model/Ocra.vos Model/Derive.vos
-Model/Random.vo Model/Random.glob Model/Random.v.beautified Model/Random.required_vo: Model/Random.v Base/Prelude.vo Spec/Rfc4648.vo
-Model/Random.vio: Model/Random.v Base/Prelude.vio Spec/Rfc4648.vio
-Model/Random.vos Model/Random.vok Model/Random.required_vos: Model/Random.v Base/Prelude.vos Spec/Rfc4648.vos
 Proofs/UtilsProofs.vo Proofs/UtilsProofs.glob Proofs/UtilsProofs.v.beautified Proofs/UtilsProofs.required_vo: Proofs/UtilsProofs.v Base/Prelude.vo Model/Errors.vo Spec/Rfc4226.vo Spec/Rfc4648.vo Model/Decoder.vo Model/Derive.vo Model/Ocra.vo Model/Utils.vo Model/Random.vo Proofs/BitLemmas.vo Proofs/DeriveProofs.vo Proofs/Base32Proofs.vo
 Proofs/UtilsProofs.vio: Proofs/UtilsProofs.v Base/Prelude.vio Model/Errors.vio Spec/Rfc4226.vio Spec/Rfc4648.vio Model/Decoder.vio Model/Derive.vio Model/Ocra.vio Model/Utils.vio Model/Random.vio Proofs/BitLemmas.vio Proofs/DeriveProofs.vio Proofs/Base32Proofs.vio
 Proofs/UtilsProofs.vos Proofs/UtilsProofs.vok Proofs/UtilsProofs.required_vos: Proofs/UtilsProofs.v Base/Prelude.vos Model/Errors.vos Spec/Rfc4226.vos Spec/Rfc4648.vos Model/Decoder.vos Model/Derive.vos Model/Ocra.vos Model/Utils.vos Model/Random.vos Proofs/BitLemmas.vos Proofs/DeriveProofs.vos Proofs/Base32Proofs.vos
+Proofs/SuiteProofs.vo Proofs/SuiteProofs.glob Proofs/SuiteProofs.v.beautified Proofs/SuiteProofs.required_vo: Proofs/SuiteProofs.v Base/Prelude.vo Hash/Sha.vo Generated/Tables.vo Generated/Registry.vo Model/Errors.vo Model/Decoder.vo Model/Derive.vo Model/Otp.vo Model/Ocra.vo Model/Utils.vo Model/Suite.vo Spec/Rfc4226.vo Spec/SuiteName.vo Proofs/OcraProofs.vo Proofs/UtilsProofs.vo
+Proofs/SuiteProofs.vio: Proofs/SuiteProofs.v Base/Prelude.vio Hash/Sha.vio Generated/Tables.vio Generated/Registry.vio Model/Errors.vio Model/Decoder.vio Model/Derive.vio Model/Otp.vio Model/Ocra.vio Model/Utils.vio Model/Suite.vio Spec/Rfc4226.vio Spec/SuiteName.vio Proofs/OcraProofs.vio Proofs/UtilsProofs.vio
+Proofs/SuiteProofs.vos Proofs/SuiteProofs.vok Proofs/SuiteProofs.required_vos: Proofs/SuiteProofs.v Base/Prelude.vos Hash/Sha.vos Generated/Tables.vos Generated/Registry.vos Model/Errors.vos Model/Decoder.vos Model/Derive.vos Model/Otp.vos Model/Ocra.vos Model/Utils.vos Model/Suite.vos Spec/Rfc4226.vos Spec/SuiteName.vos Proofs/OcraProofs.vos Proofs/UtilsProofs.vos
 Properties/C08.vo Properties/C08.glob Properties/C08.v.beautified Properties/C08.required_vo: Properties/C08.v Base/Prelude.vo Spec/Rfc4648.vo Model/Decoder.vo Model/Random.vo Proofs/Base32Proofs.vo Proofs/UtilsProofs.vo
 Properties/C08.vio: Properties/C08.v Base/Prelude.vio Spec/Rfc4648.vio Model/Decoder.vio Model/Random.vio Proofs/Base32Proofs.vio Proofs/UtilsProofs.vio
 Properties/C08.vos Properties/C08.vok Properties/C08.required_vos: Properties/C08.v Base/Prelude.vos Spec/Rfc4648.vos Model/Decoder.vos Model/Random.vos Proofs/Base32Proofs.vos Proofs/UtilsProofs.vos
 Properties/C13.vo Properties/C13.glob Properties/C13.v.beautified Properties/C13.required_vo: Properties/C13.v Base/Prelude.vo Hash/Sha.vo Generated/Tables.vo Generated/ErrTexts.vo Model/Errors.vo Model/Decoder.vo Model/Derive.vo Model/Otp.vo Model/Ocra.vo Proofs/DeriveProofs.vo Proofs/OtpProofs.vo Proofs/OcraProofs.vo
 Properties/C13.vio: Properties/C13.v Base/Prelude.vio Hash/Sha.vio Generated/Tables.vio Generated/ErrTexts.vio Model/Errors.vio Model/Decoder.vio Model/Derive.vio Model/Otp.vio Model/Ocra.vio Proofs/DeriveProofs.vio Proofs/OtpProofs.vio Proofs/OcraProofs.vio
 Properties/C13.vos Properties/C13.vok Properties/C13.required_vos: Properties/C13.v Base/Prelude.vos Hash/Sha.vos Generated/Tables.vos Generated/ErrTexts.vos Model/Errors.vos Model/Decoder.vos Model/Derive.vos Model/Otp.vos Model/Ocra.vos Proofs/DeriveProofs.vos Proofs/OtpProofs.vos Proofs/OcraProofs.vos
+Properties/C15.vo Properties/C15.glob Properties/C15.v.beautified Properties/C15.required_vo: Properties/C15.v Base/Prelude.vo Hash/Sha.vo Model/Errors.vo Model/Ocra.vo Model/Suite.vo Spec/SuiteName.vo Proofs/OcraProofs.vo Proofs/SuiteProofs.vo
+Properties/C15.vio: Properties/C15.v Base/Prelude.vio Hash/Sha.vio Model/Errors.vio Model/Ocra.vio Model/Suite.vio Spec/SuiteName.vio Proofs/OcraProofs.vio Proofs/SuiteProofs.vio
+Properties/C15.vos Properties/C15.vok Properties/C15.required_vos: Properties/C15.v Base/Prelude.vos Hash/Sha.vos Model/Errors.vos Model/Ocra.vos Model/Suite.vos Spec/SuiteName.vos Proofs/OcraProofs.vos Proofs/SuiteProofs.vos
 Properties/C17.vo Properties/C17.glob Properties/C17.v.beautified Properties/C17.required_vo: Properties/C17.v Base/Prelude.vo Model/Errors.vo Spec/Rfc4226.vo Spec/Rfc6287.vo Hash/Sha.vo Model/Decoder.vo Model/Derive.vo Model/Otp.vo Model/Ocra.vo Model/Utils.vo Proofs/DeriveProofs.vo Proofs/OcraProofs.vo Proofs/UtilsProofs.vo
 Properties/C17.vio: Properties/C17.v Base/Prelude.vio Model/Errors.vio Spec/Rfc4226.vio Spec/Rfc6287.vio Hash/Sha.vio Model/Decoder.vio Model/Derive.vio Model/Otp.vio Model/Ocra.vio Model/Utils.vio Proofs/DeriveProofs.vio Proofs/OcraProofs.vio Proofs/UtilsProofs.vio
 Properties/C17.vos Properties/C17.vok Properties/C17.required_vos: Properties/C17.v Base/Prelude.vos Model/Errors.vos Spec/Rfc4226.vos Spec/Rfc6287.vos Hash/Sha.vos Model/Decoder.vos Model/Derive.vos Model/Otp.vos Model/Ocra.vos Model/Utils.vos Proofs/DeriveProofs.vos Proofs/OcraProofs.vos Proofs/UtilsProofs.vos
